@@ -131,6 +131,7 @@ func runC20(c *core.Ctx) {
 		}
 		var cl *rtp.Packet
 		var hc rtp.Header
+		c20preRead(c, t, orig)
 		if c.Guard("rtp.Packet.Clone", func() { cl = orig.Clone(); hc = orig.Header.Clone() }) {
 			return
 		}
@@ -216,6 +217,7 @@ func runC20(c *core.Ctx) {
 				}
 				var cl *rtp.Packet
 				var hc rtp.Header
+				c20preRead(c, t, pk)
 				if !c.Guard("rtp.Packet.Clone", func() { cl = pk.Clone(); hc = pk.Header.Clone() }) && cl != nil {
 					if what := c20overlap(c, pk, cl, nil); what != "" {
 						c.Violate("independence", "C20/shared-memory/capacity-overlap/"+what, "right after Clone() of a packet built in memory, the clone's %s can reach memory of the original (%s)", what, spec)
@@ -297,6 +299,7 @@ func c20mutate(c *core.Ctx, t *core.Tape, mut int, onClone bool, orig *rtp.Packe
 		other = orig
 	}
 	c.Guard("rtp.Packet.Marshal", func() { before, _ = other.Marshal() })
+	sweepBefore := c20sweep(c, other)
 	m := r.spec
 	kind := ""
 	// with a repeated id the accessors address only the first element: keep to payload / CSRC mutations there
@@ -357,6 +360,9 @@ func c20mutate(c *core.Ctx, t *core.Tape, mut int, onClone bool, orig *rtp.Packe
 		kind = "set-new"
 		if m.profile == profOneByte || m.profile == profTwoByte || m.profile == profNone {
 			id := uint8(1 + t.Intn(14))
+			if m.profile == profTwoByte && t.Bool() {
+				id = uint8(1 + t.Intn(255))
+			}
 			dup := false
 			for _, e := range m.exts {
 				if e.id == id {
@@ -396,7 +402,22 @@ func c20mutate(c *core.Ctx, t *core.Tape, mut int, onClone bool, orig *rtp.Packe
 	c.Guard("rtp.Packet.Marshal", func() { after, _ = other.Marshal() })
 	if !bytes.Equal(before, after) {
 		c.Violate("independence", fmt.Sprintf("C20/shared-memory/mutate-%s/%s", who, kind), "mutating the %s (%s) changed what the other one serialises to", who, kind)
+	} else if sweepAfter := c20sweep(c, other); !bytes.Equal(sweepBefore, sweepAfter) {
+		c.Violate("independence", fmt.Sprintf("C20/shared-state/mutate-%s/%s", who, kind), "mutating the %s (%s) changed what the other one's accessors return (GetExtensionIDs / GetExtension over all 256 ids)", who, kind)
 	}
+}
+
+// c20sweep renders everything the extension accessors of p can be asked: the id list and
+// GetExtension for every one of the 256 ids (present or not).
+func c20sweep(c *core.Ctx, p *rtp.Packet) []byte {
+	var d digest
+	c.Guard("rtp.Header.GetExtension(all ids)", func() {
+		d.bytes(p.GetExtensionIDs())
+		for id := 0; id < 256; id++ {
+			d.bytes(p.GetExtension(uint8(id)))
+		}
+	})
+	return d.b
 }
 
 // c20diff compares a real packet with the model; it returns the first differing field.
@@ -500,4 +521,21 @@ func c20overlap(c *core.Ctx, orig, clone *rtp.Packet, rxbuf []byte) string {
 		}
 	}
 	return ""
+}
+
+// c20preRead: the packet is used before it is cloned (accessors called, serialised), so that anything
+// the object builds lazily on first use exists at clone time.
+func c20preRead(c *core.Ctx, t *core.Tape, p *rtp.Packet) {
+	if !t.Chance(1, 2) {
+		return
+	}
+	c.Probe("used-before-clone")
+	c.Guard("rtp.Header.(accessors before Clone)", func() {
+		ids := p.GetExtensionIDs()
+		for _, id := range ids {
+			_ = p.GetExtension(id)
+		}
+		_ = p.GetExtension(uint8(t.Intn(256)))
+		_ = p.MarshalSize()
+	})
 }
